@@ -30,13 +30,16 @@ MetricsOK(r) ==
          THEN /\ v.eds_status_desired = s.desired /\ v.eds_status_current = s.current /\ v.eds_status_ready = s.ready
               /\ v.eds_status_available = s.available /\ v.eds_status_uptodate = s.upToDate
               /\ v.eds_status_ignored_unresponsive_nodes = s.ignored
+              /\ v.eds_created = 1700000000
               /\ v.eds_status_canary_activated = B(fl.canary)
+              /\ v.eds_status_canary_paused = B(fl.canary /\ r.in.cpaused = "true")
               /\ v.eds_status_canary_node_number = (IF fl.canary THEN s.canaryNodes ELSE 0)
               /\ v.eds_status_rolling_update_paused = B(fl.ruPaused /\ ~fl.frozen)
               /\ v.eds_status_rollout_frozen = B(fl.frozen)
          ELSE /\ v.ers_status_desired = s.desired /\ v.ers_status_current = s.current /\ v.ers_status_ready = s.ready
               /\ v.ers_status_available = s.available /\ v.ers_status_ignored_unresponsive_nodes = s.ignored
               /\ v.ers_status_canary_failed = B(fl.failed)
+              /\ v.ers_created = 1700000000
       \* the object's own label extendeddaemonset.datadoghq.com/name=foo appears under its sanitised key with its value
       /\ \E i \in DOMAIN r.out.labelKeys : r.out.labelKeys[i] = "extendeddaemonset_datadoghq_com_name" /\ r.out.labelValues[i] = "foo"
       /\ \E i \in DOMAIN r.out.labelKeys : r.out.labelKeys[i] = "team" /\ r.out.labelValues[i] = "x"
